@@ -109,7 +109,7 @@ def run(ctx):
                     gsel = ((3, 6) if D == 2 else (29,)) if th else ()
                     jobs.append((ctx.repo, D, isig, osig, bias, padding, rd, ld, flags, tuple(gsel), (1,) + (0,) * (D - 2) + (2,)))
     by = {}
-    for job, r in zip(jobs, ctx.pmap(worker, jobs)):
+    for job, r in ctx.pairs(worker, jobs):
         cfg = r["cfg"]
         n_g = cfg.get("group_elements", 0)
         bad_g = len([1 for k, _, _ in r["problems"] if k == "equivariance"])
